@@ -79,3 +79,46 @@ PROPS["C03"] = pbt(
     thorough={"cases": 3000000, "modes": [["exh", "4", str(k), "16"] for k in range(16)] + [["empties"]]},
     floors={"base_reopens_section": 0.10, "override_only_groupless": 0.10, "base_nonleading_groupless": 0.08},
 )
+
+PROPS["C01"] = pbt(
+    "pbt_c01", "pbt_c01.cpp",
+    rule=("trees of DESIGN 5.3 (3 default layers under ROOT_PREFIX or 1-4 explicit PARSING_DIRS layers; main file "
+          "absent/regular/empty/link to /dev/null/link to a regular file per layer; drop-in directories for the "
+          "effective and for distractor postfixes; names with byte-order-sensitive prefixes, without suffix, suffix "
+          "only, dot files, the main file's own name) x parameter shapes (project NULL, suffix with/without dot/NULL/"
+          "empty, drop-ins only, CONFIG_DIRS, process-wide list); contents merge-tame with origin-tagged values; "
+          "oracle = layered lookup model (DESIGN 6.3) folded with the reference merge; non-trivial = >=2 consulted "
+          "files, or main file in >=2 layers, or a masked drop-in, or NOFILE despite distractor files; distinct = hash "
+          "of presence pattern + names + parameter shape (values excluded)"),
+    technique="property-based testing: generated configuration trees against a reference model of the layered lookup, rapidcheck",
+    level_text=("generated search: every tree is built from a model, so the expected merged configuration, the "
+                "sequence of consulted files (checked through the callback) and the NOFILE cases are known by "
+                "construction. 32k (quick) / 640k (thorough) trees with class floors on every shape the quantifier names."),
+    level_note="trusts the lookup model and reference merge in src/common/gen_tree.hpp; real /run and /etc only for the nothing-exists case",
+    quick={"cases": 32000},
+    thorough={"cases": 640000},
+    floors={"masked_dropin": 0.10, "no_main": 0.15, "no_main_first_masked": 0.01, "empty_or_devnull_main": 0.08,
+            "empty_main_sectioned_first_dropin": 0.01, "main_in_2_layers": 0.15, "byteorder_sensitive_names": 0.10,
+            "suffix_without_dot": 0.25, "suffix_absent": 0.05, "dropins_only": 0.08, "parsing_dirs": 0.15,
+            "config_dirs_or_global": 0.10, "nofile": 0.03},
+)
+
+PROPS["C13"] = pbt(
+    "pbt_c13", "pbt_c13.cpp", level="fault_enumeration",
+    rule=("conventional file (DESIGN 5.1, all delimiter/comment sets) + one injected malformed line of a kind in "
+          "{'[name', '[name] text', '[]', 'key text' (non-blank delimiter sets only, not directly after an entry)} at a "
+          "generated position, later lines arbitrary and possibly malformed too; standalone (econf_readFile / "
+          "WithCallback) or as content of a consulted regular file of a C01 tree (readConfig / WithCallback); plus "
+          "missing files and the complete message table 0..24 and out-of-range codes. Oracle: code of the kind, "
+          "econf_errLocation = (that file, that line), nothing handed back. non-trivial = injected line not first, or "
+          "victim is a drop-in; distinct = (kind, line, file skeleton / tree shape, victim index)"),
+    technique="fault injection into generated files/trees: the injected line determines (code, path, line); rapidcheck",
+    level_text=("fault enumeration by generation: each of the four malformed-line kinds is injected at generated "
+                "positions of generated files, alone and as any regular member of a layered tree; the expected error "
+                "code, file and line follow from the injection. 40k (quick) / 1M (thorough) cases; message table exhaustive."),
+    level_note="trusts the injector (position rules of DESIGN 5.1) and the lookup model for the tree part",
+    quick={"cases": 40000},
+    thorough={"cases": 1000000},
+    floors={"kind_missing_bracket": 0.12, "kind_text_after_section": 0.12, "kind_empty_section_name": 0.12,
+            "kind_missing_delimiter": 0.04, "not_first_line": 0.30, "tree_member": 0.20, "in_dropin": 0.10},
+)
